@@ -1,6 +1,7 @@
 (* Properties/C08.v — C08: outcomes are neutral, anonymous and independent of representation.
    Statements only.  Proofs: Proofs/C08_neutral.v (free theorems obtained with Paramcoq, see
-   Proofs/ParamArith.v, ParamModel.v, ParamBridge.v) and Proofs/C08_anon.v (measure arguments).
+   Proofs/ParamArith.v, ParamModel.v, ParamBridge.v), Proofs/C08_anon.v (measure arguments) and
+   Proofs/C08_stv.v (the STV family).
    Vocabulary: Spec/Rename.v (rn_* : renaming every candidate occurrence of a value),
    Spec/Anon.v (dist_eq, groups_equiv, scores_equiv, state_equiv, profile_equiv, res_equiv,
    mres_equiv, one_shot_domain), Spec/Content.v (same_content, wtof), Spec/ScoreSpec.v (wf_profile),
@@ -9,7 +10,7 @@
    differential harness (DESIGN.md, C08). *)
 From VK Require Import Base Core STV Pairwise Rules.
 From VK.Spec Require Import Content ScoreSpec EditSpec Rename Anon.
-From VK.Proofs Require Import C08_neutral C08_anon.
+From VK.Proofs Require Import C08_neutral C08_anon C08_stv.
 From Coq Require Import Permutation.
 
 (* ====================================================================== *)
@@ -411,7 +412,7 @@ Proof.
     apply (Permutation_trans (l' := [1; 3; 2]%positive)); [apply perm_skip, perm_swap|apply perm_swap].
 Qed.
 
-Lemma ex_wf : forall bs cs, (forall c, In c [1;2;3]%positive -> In c cs) -> NoDup cs ->
+Example ex_wf : forall bs cs, (forall c, In c [1;2;3]%positive -> In c cs) -> NoDup cs ->
   Forall (fun b => exists r w, b = ex_b r w /\ (0 <= w)%Z /\ Permutation r [1;2;3]%positive) bs ->
   one_shot_domain positive SKFpv (mkProfile bs cs).
 Proof.
@@ -469,3 +470,150 @@ Proof.
   exact (c08_one_shot_anonymous positive Pos.eqb Pos.eqb_spec SKFpv 1 ex_p ex_p2 ex_s0
            (proj1 c08_ex_domain) (proj2 c08_ex_domain) c08_ex_profile_equiv).
 Qed.
+
+(* ====================================================================== *)
+(** * Part 2, continued — rule entry points and the STV family *)
+
+Section AnonymityRules.
+Variable cand : Type.
+Variable ceqb : cand -> cand -> bool.
+Hypothesis ceqb_spec : forall a b, reflect (a = b) (ceqb a b).
+
+Notation ballot := (ballot cand).
+Notation profile := (profile cand).
+Notation mstate := (mstate cand).
+Notation estate := (estate cand).
+Notation dist_eq := (dist_eq cand ceqb).
+Notation state_equiv := (state_equiv cand).
+Notation profile_equiv := (profile_equiv cand ceqb).
+Notation nonneg_wts := (nonneg_wts cand).
+Notation one_shot_domain := (one_shot_domain cand).
+Notation stv_domain := (stv_domain cand).
+Notation stv_state_ok := (stv_state_ok cand).
+
+(* Plurality / SNTV and Borda as run by the rule dispatcher, no tiebreak rule *)
+Theorem c08_plurality_anonymous : forall (m : Z) (p p' : profile) (s : mstate),
+  one_shot_domain SKFpv p -> one_shot_domain SKFpv p' -> profile_equiv p p' ->
+  mres_equiv cand (Forall2 state_equiv)
+    (run_rule cand ceqb (RPlurality m None) p s) (run_rule cand ceqb (RPlurality m None) p' s).
+Proof. exact (plurality_anonymous cand ceqb ceqb_spec). Qed.
+
+Theorem c08_borda_anonymous : forall (m : Z) (v : option (list Q)) (p p' : profile) (s : mstate),
+  one_shot_domain SKBorda p -> one_shot_domain SKBorda p' -> profile_equiv p p' ->
+  mres_equiv cand (Forall2 state_equiv)
+    (run_rule cand ceqb (RBorda m v None) p s) (run_rule cand ceqb (RBorda m v None) p' s).
+Proof. exact (borda_anonymous cand ceqb ceqb_spec). Qed.
+
+(* ---- STV building blocks ---- *)
+
+(* the pile of ballots led by w *)
+Theorem c08_pile_anonymous : forall (p p' : profile) (w : cand),
+  dist_eq (ballots p) (ballots p') -> dist_eq (pile cand ceqb p w) (pile cand ceqb p' w).
+Proof. exact (pile_anonymous cand ceqb ceqb_spec). Qed.
+
+(* the fractional (Gregory) surplus transfer of winner w with tally fpv and quota t, on ranked
+   ballots (it fails, with ZeroDivisionError, exactly when the tally is 0) *)
+Theorem c08_frac_transfer_anonymous : forall (w : cand) (fpv fpv' t : Q) (bs bs' : list ballot),
+  Forall (fun b => rk b <> []) bs -> Forall (fun b => rk b <> []) bs' ->
+  nonneg_wts bs -> nonneg_wts bs' -> fpv == fpv' -> dist_eq bs bs' ->
+  res_equiv dist_eq (frac_transfer cand ceqb w fpv bs t) (frac_transfer cand ceqb w fpv' bs' t).
+Proof. exact (frac_transfer_anonymous cand ceqb ceqb_spec). Qed.
+
+(* the quota: the same electorate gives the same threshold (or the same error) *)
+Theorem c08_stv_init_anonymous : forall (cfg : stv_cfg) (p p' : profile),
+  stv_domain p -> stv_domain p' -> profile_equiv p p' ->
+  stv_init cand cfg p = stv_init cand cfg p'.
+Proof. exact (stv_init_anonymous cand ceqb ceqb_spec). Qed.
+
+(* ---- one STV step on the deterministic path: no tiebreak rule configured, a deterministic
+   transfer (fractional or full-weight), an empty draw script (so that a tie at elimination that
+   first-place votes of the original profile p0 do not resolve fails, identically, with EScript).
+   From equivalent profiles and equivalent previous rounds that report their tallies: the same
+   error, or the same next profile and the same next round, both again in the domain ---- *)
+Theorem c08_stv_step_anonymous :
+  forall (cfg : stv_cfg) (t : Q) (p0 p0' : profile) (n : Z) (p p' : profile) (prev prev' : estate)
+         (s : mstate),
+  s_tiebreak cfg = None -> s_transfer cfg <> TRandom -> scr s = [] ->
+  stv_domain p0 -> stv_domain p0' -> profile_equiv p0 p0' ->
+  stv_domain p -> stv_domain p' -> profile_equiv p p' ->
+  stv_state_ok p prev -> stv_state_ok p' prev' -> state_equiv prev prev' ->
+  mres_equiv cand (stv_step_equiv cand ceqb)
+    (stv_step cand ceqb cfg t p0 n p prev s) (stv_step cand ceqb cfg t p0' n p' prev' s).
+Proof. exact (stv_step_anonymous cand ceqb ceqb_spec). Qed.
+
+(* ---- the whole STV count (IRV, STV with simultaneous or one-by-one election, SequentialRCV's
+   full-weight transfer), same hypotheses: every round agrees ---- *)
+Theorem c08_stv_anonymous : forall (cfg : stv_cfg) (p p' : profile) (s : mstate),
+  s_tiebreak cfg = None -> s_transfer cfg <> TRandom -> scr s = [] ->
+  stv_domain p -> stv_domain p' -> profile_equiv p p' ->
+  mres_equiv cand (Forall2 state_equiv)
+    (run_rule cand ceqb (RSTV cfg) p s) (run_rule cand ceqb (RSTV cfg) p' s).
+Proof. exact (stv_rule_anonymous cand ceqb ceqb_spec). Qed.
+
+End AnonymityRules.
+
+Print Assumptions c08_plurality_anonymous.
+Print Assumptions c08_borda_anonymous.
+Print Assumptions c08_pile_anonymous.
+Print Assumptions c08_frac_transfer_anonymous.
+Print Assumptions c08_stv_init_anonymous.
+Print Assumptions c08_stv_step_anonymous.
+Print Assumptions c08_stv_anonymous.
+
+(* non-vacuity for the STV statements: the split / reordered / re-listed profile ex_p2 *)
+Example c08_ex_stv_domain : stv_domain positive ex_p /\ stv_domain positive ex_p2.
+Proof.
+  assert (H : forall bs cs, (forall c, In c [1;2;3]%positive -> In c cs) -> NoDup cs ->
+            Forall (fun b => exists r w, b = ex_b r w /\ (0 <= w)%Z /\ Permutation r [1;2;3]%positive) bs ->
+            stv_domain positive (mkProfile bs cs)).
+  { intros bs cs Hcs Hnd Hbs. split; [exact Hnd|]. cbn [ballots cands]. rewrite Forall_forall in Hbs |- *.
+    intros b Hb. destruct (Hbs b Hb) as [r [w [-> [Hw Hp]]]]. unfold stv_ballot_ok. cbn [rk wt sc ex_b].
+    assert (Hf : flat positive (map (fun c => [c]) r) = r).
+    { clear. induction r as [|c r IH]; [reflexivity|]. cbn [map]. unfold flat in *. cbn [concat app].
+      rewrite IH. reflexivity. }
+    rewrite Hf. repeat split.
+    - destruct r; [apply Permutation_nil in Hp; discriminate|discriminate].
+    - apply Forall_forall. intros g Hg. apply in_map_iff in Hg. destruct Hg as [c [<- _]]. reflexivity.
+    - apply (Permutation_NoDup (Permutation_sym Hp)). repeat constructor; cbn; intuition discriminate.
+    - intros c Hc. apply Hcs. apply (Permutation_in _ Hp Hc).
+    - unfold Qle, inject_Z. cbn [Qnum Qden]. rewrite !Z.mul_1_r. exact Hw. }
+  split; apply H.
+  - intros c Hc; exact Hc.
+  - repeat constructor; cbn; intuition discriminate.
+  - repeat constructor.
+    + exists [1;2;3]%positive, 4%Z. repeat split; [discriminate|apply Permutation_refl].
+    + exists [2;3;1]%positive, 3%Z. repeat split; [discriminate|].
+      apply Permutation_sym, (Permutation_cons_app [2;3]%positive [] 1%positive), Permutation_refl.
+    + exists [3;2;1]%positive, 2%Z. repeat split; [discriminate|].
+      apply Permutation_sym, (Permutation_rev [1;2;3]%positive).
+  - cbn. intuition (subst; auto).
+  - repeat constructor; cbn; intuition discriminate.
+  - repeat constructor.
+    + exists [3;2;1]%positive, 2%Z. repeat split; [discriminate|].
+      apply Permutation_sym, (Permutation_rev [1;2;3]%positive).
+    + exists [2;3;1]%positive, 3%Z. repeat split; [discriminate|].
+      apply Permutation_sym, (Permutation_cons_app [2;3]%positive [] 1%positive), Permutation_refl.
+    + exists [1;2;3]%positive, 3%Z. repeat split; [discriminate|apply Permutation_refl].
+    + exists [1;2;3]%positive, 1%Z. repeat split; [discriminate|apply Permutation_refl].
+Qed.
+
+Example c08_ex_stv_anonymous_by_theorem :
+  mres_equiv positive (Forall2 (state_equiv positive))
+    (run_rule positive Pos.eqb (RSTV ex_cfg) ex_p ex_s0)
+    (run_rule positive Pos.eqb (RSTV ex_cfg) ex_p2 ex_s0).
+Proof.
+  apply (c08_stv_anonymous positive Pos.eqb Pos.eqb_spec ex_cfg ex_p ex_p2 ex_s0);
+    [reflexivity|discriminate|reflexivity|apply c08_ex_stv_domain|apply c08_ex_stv_domain
+    |exact c08_ex_profile_equiv].
+Qed.
+
+(* the two counts, computed: three rounds each, 3 eliminated then 2 elected; the tallies of the
+   second come out in the other candidate order *)
+Example c08_ex_stv_anonymous_runs :
+  exists a0 a1 a2 b0 b1 b2,
+    run_rule positive Pos.eqb (RSTV ex_cfg) ex_p ex_s0 = inl ([a0; a1; a2], ex_s0) /\
+    run_rule positive Pos.eqb (RSTV ex_cfg) ex_p2 ex_s0 = inl ([b0; b1; b2], ex_s0) /\
+    eliminated a1 = [[3%positive]] /\ eliminated b1 = [[3%positive]] /\
+    elected a2 = [[2%positive]] /\ elected b2 = [[2%positive]] /\
+    map fst (escores a0) = [1;2;3]%positive /\ map fst (escores b0) = [3;1;2]%positive.
+Proof. eexists. eexists. eexists. eexists. eexists. eexists. vm_compute. repeat split. Qed.
